@@ -24,7 +24,8 @@ SomeFlags(P) == {g \in Flags : (g.major => "major" \in FieldSet(P)) /\ (g.minor 
                                /\ ~g.pin_increments /\ ~g.pin_date /\ ~g.tag_num /\ g.tag \in {NoTag, "beta", "final"}}
 
 \* --set-version targets derived from the start text s and a greater text g
-Targets(s, g) == { g, s, s \o <<46, 48>>, <<48>> \o s, <<118>> \o s, SubSeq(s, 1, Len(s) - 1), s \o <<120>>, <<>>, <<49>>, g \o <<32>> }
+Targets(s, g) == { g, s, s \o <<46, 48>>, <<48>> \o s, <<118>> \o s, SubSeq(s, 1, Len(s) - 1), s \o <<120>>, <<>>, <<49>>, g \o <<32>>,
+                    g \o <<10>>, g \o <<13, 10>>, <<32>> \o g, g \o <<9>> }       \* a greater version with white space around it: PEP 440 parsing tolerates it, the pattern must not
 
 Init == /\ p \in 1..Len(GenPatterns) /\ d \in GenDates /\ dry \in BOOLEAN
         /\ v = NoV /\ pc = "choose" /\ start = <<>> /\ cand = <<>> /\ how = "" /\ exit = -1 /\ announced = None /\ written = FALSE
